@@ -330,3 +330,21 @@ Definition c08_maximal (c : sortcase) : bool :=
   end.
 
 Definition check_c08 (c : sortcase) : bool := check_sorted c && c08_maximal c.
+
+(* ------------------------------------------------------------------------------------------
+   direct calls of the public static methods SortedSchedulingAlgo.max_feasible_rate (any eps, any lb; the
+   defaults eps = 0.0001 and lb = 0 are supplied by the harness) and discrete_max_feasible_rate *)
+Record mfrcase := {
+  m_infra : infra; m_idx : nat; m_sched : list Q; m_cont : bool; m_ub : Q; m_eps : Q; m_lb : Q; m_levels : list Q;
+  om_err : option string; om_val : Q
+}.
+Definition check_mfr (c : mfrcase) : bool :=
+  let feas := feas_big (big_rows (prep_rows (m_infra c))) in
+  let r := if m_cont c
+           then max_feasible_rate feas (m_idx c) (m_ub c) (m_sched c) (m_eps c) (m_lb c)
+           else discrete_max_feasible_rate feas (m_idx c) (m_levels c) (m_sched c) in
+  match r, om_err c with
+  | Ok v, None => Qclose v (om_val c)
+  | Err e, Some e' => String.eqb e e'
+  | _, _ => false
+  end.
